@@ -26,9 +26,9 @@ def run(tier, seed, faults=()):
         if not cm.run_mc_stage(rep, "ReportView", cm.mc_cfg(c, RV_INV), RV_ACTIONS, label="report view, %d parameters" % npars):
             return rep
     depth = 3 if tier == "quick" else 4
-    for ftype in ("xy", "xyq", "hist", "indexed", "unbinned"):
-        npars = 3 if ftype == "xyq" else 2
-        off = ["AddError"] if ftype == "unbinned" else []        # an unbinned fit has no uncertainty sources to add
+    for ftype in ("xy", "xyq", "hist", "indexed", "unbinned", "custom"):
+        npars = 3 if ftype in ("xyq", "custom") else 2
+        off = ["AddError"] if ftype in ("unbinned", "custom") else []        # an unbinned fit has no uncertainty sources to add
         c = dict(NPars=npars, MaxDepth=depth, Off=off, Faults=list(faults))
         cm.run_replay_stage(rep, "GenReportView", cm.gen_cfg(c), make_replay(ftype), "%s: all histories, %d steps" % (ftype, depth),
                             max_histories=(900 if ftype in ("xy", "hist") else 300) if tier == "quick" else None, seed=seed, chunk=20)
@@ -36,7 +36,7 @@ def run(tier, seed, faults=()):
         cm.run_replay_stage(rep, "GenReportView", cm.gen_cfg(c), make_replay(ftype), "%s: simulate" % ftype,
                             simulate=(12 if tier == "quick" else 150, 9, seed + 3), max_histories=250 if tier == "quick" else 4000, seed=seed, chunk=10)
     rep.assumptions += ["report / get_result_dict / to_file preface are parsed back after every Show of the ReportView histories on XYFit (line, quadratic), "
-                        "IndexedFit, HistFit, UnbinnedFit; oracle = the numbers held by the same fit object right after the output",
+                        "IndexedFit, HistFit, UnbinnedFit, CustomFit; oracle = the numbers held by the same fit object right after the output",
                         "value +/- uncertainty strings: mantissas of the catalogue (all of 1..130 / 1..1200, the neighbourhoods of 950, 995, 9995, 99995 ...) x "
                         "decimal exponents x 1..4 significant digits; a decimal tie is replayed with the bias of the actual binary float"]
     rep.coverage["trusted_base"] = ["TLC", "harness/adapters/format.py", "harness/adapters/reportview.py"]
